@@ -158,7 +158,7 @@ def run(chk: Check):
     writes = [n for n in _own_nodes(pctx.func) if isinstance(n, ast.Call) and isinstance(n.func, ast.Attribute) and n.func.attr == "write"]
     writes.sort(key=lambda n: n.lineno)
     t0 = R.expr(pctx, writes[0].args[0]) if writes else S.unk("none")
-    chk.decide(S.is_const(t0) and t0[1] == b"\x00" * 512, "K-FORMULA", "header-placeholder", writes[0] if writes else pctx.func, "512 bytes are reserved for the file header")
+    chk.decide(S.is_const(t0) and t0[1] == b"\x00" * 512 or S.equiv(t0, S.C(b"\x00" * 512), n=8).equal is True, "K-FORMULA", "header-placeholder", writes[0] if writes else pctx.func, "512 bytes are reserved for the file header")
     padw = [w for w in writes if isinstance(w.args[0], ast.BinOp) and w is not writes[0]]
     okp = False
     if padw:
@@ -172,12 +172,15 @@ def run(chk: Check):
     except NotConst:
         bsv = None
     chk.decide(bsv == 4096, "K-CONST", "header-block-size", pctx.func, "block size 4096", found=str(bsv))
-    cons = [n for n in _own_nodes(pctx.func) if isinstance(n, ast.Call) and ast.unparse(n.func).endswith("EnvelopeFileHeader")]
+    cons = [n for n in _own_nodes(pctx.func) if isinstance(n, ast.Call) and n.keywords and R.expr(pctx, n.func, pctx.cfg.node_for(n))[0] == "c"
+            and getattr(R.expr(pctx, n.func, pctx.cfg.node_for(n))[1], "name", "") == "EnvelopeFileHeader"]
     okk = False
     if cons:
-        kws = {k.arg: k.value for k in cons[0].keywords}
-        okk = set(kws) == {"magic", "size", "version"} and isinstance(kws["magic"], ast.Constant) and kws["magic"].value == b"DataTransformEnvelope" \
-            and "len(c_envelope.EnvelopeFileHeader)" in ast.unparse(kws["size"]) and ast.unparse(kws["version"]).endswith(".version")
+        kws = {k.arg: R.expr(pctx, k.value, pctx.cfg.node_for(cons[0])) for k in cons[0].keywords}
+        tells = [x for x in S.walk(kws.get("size", S.C(None))) if isinstance(x, tuple) and x and x[0] == "call" and x[1] == ".tell"]
+        okk = set(kws) == {"magic", "size", "version"} and kws["magic"] == S.C(b"DataTransformEnvelope") \
+            and bool(tells) and S.equiv(kws["size"], S.op("sub", tells[0], S.C(512)), n=30).equal is True \
+            and ((kws["version"][0] == "attr" and kws["version"][2] == "version") or (kws["version"][0] == "f" and kws["version"][1:3] == ("EnvelopeFileHeader", 508)))
     chk.decide(okk, "K-FORMULA", "header-fields-rebuilt", cons[0] if cons else pctx.func, "magic, size = total - sizeof(header), version from the parsed envelope")
     codec(chk)
     keystore(chk)
@@ -277,11 +280,18 @@ def _ops_of_writer(chk: Check, ctx):
             item = ("type", recv[1].name)
             if recv[1].name == "uint16":
                 item = ("raw", 2)
+            # an integer type writing the constant 0 is that many zero bytes, whatever the byte order
+            val_t = R.expr(ctx, n.args[1], ctx.cfg.node_for(n)) if len(n.args) > 1 else None
+            if val_t == S.C(0) and recv[1].sizeof() and recv[1].name.startswith(("uint", "int")):
+                item = ("raw", recv[1].sizeof())
         elif recv[0] == "arrtype":
             item = ("cstr",) if recv[1].name == "char" and recv[2] == S.C(None) else ("type", recv[1].name + "[]")
         elif recv[0] == "sub":
             item = ("table",)
         if item is None:
+            continue
+        if item[0] == "raw" and isinstance(item[1], int) and not (loops and n in list(ast.walk(loops[0]))) and tail and tail[-1][0] == "raw" and isinstance(tail[-1][1], int):
+            tail[-1] = ("raw", tail[-1][1] + item[1])  # consecutive zero runs behind the loop are one terminator
             continue
         in_loop = loops and n in list(ast.walk(loops[0]))
         conds = conds_sym(chk, ctx, n)
